@@ -1116,6 +1116,16 @@ func compiledCase(k *h.Case, rf *realFonts, workDir string) {
 			fm[f.id] = e
 		}
 		cfg := map[string]interface{}{"defaultFontId": defaultFontID, "fonts": fm}
+		if h.Chance(r, 0.2) {
+			// an annotated config: keys the compiler does not know (a comment, a version, a per-font description)
+			// next to the documented ones; the fonts are the same fonts
+			cfg["_comment"] = "widths measured from the game's font sheet"
+			cfg["version"] = 2
+			for _, e := range fm {
+				e.(map[string]interface{})["description"] = "annotated font"
+			}
+			k.Count("annotated_font_configs", 1)
+		}
 		b, err := json.Marshal(cfg)
 		if err != nil {
 			k.C.Inconclusive("cannot marshal font config: %v", err)
